@@ -37,7 +37,18 @@ pub enum Op {
     Free(u8),
     Req(u8),
     Emit(u8),
+    /// load_config with configuration text k (shared by all tasks of the thread)
+    Config(u8),
+    /// get_log: writes the log into the result buffer
+    Log,
 }
+
+/// configuration texts: the default naming, named exports with a suffix, and one that does not parse
+pub const CONFIGS: [(&str, bool); 3] = [
+    ("schema: ./s.graphql\n", true),
+    ("schema: ./s.graphql\nextensions:\n  nitrogql:\n    generate:\n      name:\n        queryVariableSuffix: Doc\n        fragmentVariableSuffix: Frag\n      export:\n        defaultExportForOperation: false\n", true),
+    ("schema: [\n", false),
+];
 
 fn op_json(o: &Op) -> J {
     match o {
@@ -46,6 +57,8 @@ fn op_json(o: &Op) -> J {
         Op::Free(t) => json!(["free", t]),
         Op::Req(t) => json!(["req", t]),
         Op::Emit(t) => json!(["emit", t]),
+        Op::Config(k) => json!(["config", k]),
+        Op::Log => json!(["log"]),
     }
 }
 fn op_from(v: &J) -> Op {
@@ -55,6 +68,8 @@ fn op_from(v: &J) -> Op {
         "load" => Op::Load(n(1), n(2), n(3)),
         "free" => Op::Free(n(1)),
         "req" => Op::Req(n(1)),
+        "config" => Op::Config(n(1)),
+        "log" => Op::Log,
         _ => Op::Emit(n(1)),
     }
 }
@@ -65,6 +80,8 @@ fn op_show(o: &Op) -> String {
         Op::Free(t) => format!("free(task#{t})"),
         Op::Req(t) => format!("required(task#{t})"),
         Op::Emit(t) => format!("emit(task#{t})"),
+        Op::Config(k) => format!("load_config(cfg{k})"),
+        Op::Log => "get_log()".to_string(),
     }
 }
 
@@ -119,15 +136,20 @@ fn expected_required(t: &MTask) -> BTreeSet<String> {
 }
 
 /// the module (or failure) a fresh task produces from the same files, on a fresh thread
-fn fresh_emit(root: &str, files: &BTreeMap<String, usize>) -> (bool, String) {
+fn fresh_emit(root: &str, files: &BTreeMap<String, usize>, cfg: usize) -> (bool, String) {
     static CACHE: Mutex<Option<HashMap<String, (bool, String)>>> = Mutex::new(None);
-    let key = format!("{root}|{files:?}");
+    let key = format!("{root}|{files:?}|{cfg}");
     if let Some(v) = CACHE.lock().unwrap().get_or_insert_with(HashMap::new).get(&key) {
         return v.clone();
     }
     let root2 = root.to_string();
     let files2 = files.clone();
     let r = std::thread::spawn(move || {
+        if cfg != 0 {
+            let c = abi_str(CONFIGS[cfg].0);
+            graphql_loader::load_config(c.0, c.1);
+            abi_free(c);
+        }
         let id = abi_initiate(&root2, SOURCES[files2[&root2]].0);
         if id == 0 {
             return (false, String::new());
@@ -154,7 +176,7 @@ fn check_history(ops: Vec<Op>, probe_every_step: bool) -> Result<J, (String, Str
 }
 
 /// one required() or emit() call on the id denoted by `t`, judged against the model
-fn judge_call(tasks: &[MTask], t: usize, emit: bool, ctx: &str, calls: &mut u64, emits_ok: &mut u64) -> Result<(), (String, String)> {
+fn judge_call(tasks: &[MTask], cfg: usize, t: usize, emit: bool, ctx: &str, calls: &mut u64, emits_ok: &mut u64) -> Result<(), (String, String)> {
     let (id, idx) = {
         if t < tasks.len() {
             (tasks[t].id, Some(t))
@@ -197,7 +219,7 @@ fn judge_call(tasks: &[MTask], t: usize, emit: bool, ctx: &str, calls: &mut u64,
         return Ok(());
     }
     let task = &tasks[idx.unwrap()];
-    let (fok, ftext) = fresh_emit(&task.root, &task.files);
+    let (fok, ftext) = fresh_emit(&task.root, &task.files, cfg);
     if r != fok {
         return Err(("emit.differs_from_fresh_task:status".into(), format!("{ctx}; then emit(id {id}) returned {r} but a fresh task with the same files returns {fok}")));
     }
@@ -212,6 +234,7 @@ fn judge_call(tasks: &[MTask], t: usize, emit: bool, ctx: &str, calls: &mut u64,
 
 fn check_history_here(ops: &[Op], probe_every_step: bool) -> Result<J, (String, String)> {
     let mut tasks: Vec<MTask> = vec![];
+    let mut cfg = 0usize;
     let mut calls = 0u64;
     let mut emits_ok = 0u64;
     let id_of = |tasks: &Vec<MTask>, t: u8| -> (usize, Option<usize>) {
@@ -272,8 +295,21 @@ fn check_history_here(ops: &[Op], probe_every_step: bool) -> Result<J, (String, 
                     tasks[i].live = false;
                 }
             }
-            Op::Req(t) => judge_call(&tasks, t as usize, false, &ctx, &mut calls, &mut emits_ok)?,
-            Op::Emit(t) => judge_call(&tasks, t as usize, true, &ctx, &mut calls, &mut emits_ok)?,
+            Op::Req(t) => judge_call(&tasks, cfg, t as usize, false, &ctx, &mut calls, &mut emits_ok)?,
+            Op::Emit(t) => judge_call(&tasks, cfg, t as usize, true, &ctx, &mut calls, &mut emits_ok)?,
+            Op::Config(k) => {
+                let c = abi_str(CONFIGS[k as usize].0);
+                let ok = graphql_loader::load_config(c.0, c.1);
+                abi_free(c);
+                if ok != CONFIGS[k as usize].1 {
+                    return Err(("config.wrong_status".into(), format!("{ctx}: returned {ok}")));
+                }
+                // a configuration that does not parse leaves the loaded one in place
+                if ok {
+                    cfg = k as usize;
+                }
+            }
+            Op::Log => graphql_loader::get_log(),
         }
         // probes: every id ever issued, and two never-issued ids - after every call, or (explicit-call
         // families, where required()/emit() are letters of the alphabet and nothing is called in
@@ -283,8 +319,8 @@ fn check_history_here(ops: &[Op], probe_every_step: bool) -> Result<J, (String, 
         }
         let n = tasks.len();
         for t in 0..n + 2 {
-            judge_call(&tasks, t, false, &ctx, &mut calls, &mut emits_ok)?;
-            judge_call(&tasks, t, true, &ctx, &mut calls, &mut emits_ok)?;
+            judge_call(&tasks, cfg, t, false, &ctx, &mut calls, &mut emits_ok)?;
+            judge_call(&tasks, cfg, t, true, &ctx, &mut calls, &mut emits_ok)?;
         }
     }
     Ok(json!({"calls": calls, "emits_ok": emits_ok, "tasks": tasks.len()}))
@@ -326,6 +362,16 @@ fn alphabet(files: usize, sources: &[u8], tasks: u8, with_probes: bool) -> Vec<O
     v
 }
 
+/// the explicit-call alphabet plus the calls that are not about one task: load_config and get_log
+fn alphabet_with_config(files: usize, sources: &[u8], tasks: u8) -> Vec<Op> {
+    let mut v = alphabet(files, sources, tasks, true);
+    for k in 0..CONFIGS.len() as u8 {
+        v.push(Op::Config(k));
+    }
+    v.push(Op::Log);
+    v
+}
+
 pub fn run(args: &Args) -> i32 {
     let rep = Reporter::new("C19", &args.tier);
     let pool = Pool::new("c19", args.threads);
@@ -339,15 +385,17 @@ pub fn run(args: &Args) -> i32 {
     let all: Vec<u8> = (0..N_FULL).collect();
     let mut plans = vec![("full-alphabet", alphabet(3, &all, 3, false), if args.quick() { 3 } else { 3 })];
     if args.quick() {
-        plans.push(("2files-4sources-depth4", alphabet(2, &[1, 2, 3, 4], 2, false), 4));
+        plans.push(("2files-3sources-depth4", alphabet(2, &[1, 3, 4], 2, false), 4));
         // required()/emit() as letters, nothing called between the letters: one task, files re-supplied with other bodies
         plans.push(("explicit-calls:2files-5sources-1task-depth4", alphabet(2, &[0, 1, 2, 6, 7], 1, true), 4));
+        plans.push(("explicit-calls+config+log:1file-2sources-1task-depth4", alphabet_with_config(1, &[0, 2], 1), 4));
     } else {
         plans.push(("3files-4sources-2tasks-depth4", alphabet(3, &[1, 2, 3, 4], 2, false), 4));
         plans.push(("2files-3sources-2tasks-depth5", alphabet(2, &[1, 3, 4], 2, false), 5));
         plans.push(("probes-as-operations-depth4", alphabet(2, &[1, 3], 2, true), 4));
         plans.push(("explicit-calls:2files-5sources-2tasks-depth4", alphabet(2, &[0, 1, 2, 6, 7], 2, true), 4));
         plans.push(("explicit-calls:2files-4sources-1task-depth5", alphabet(2, &[0, 1, 2, 6], 1, true), 5));
+        plans.push(("explicit-calls+config+log:2files-3sources-1task-depth5", alphabet_with_config(2, &[1, 2, 6], 1), 5));
     }
     // AddressSanitizer pass: the same engine, served by the sanitizer build of this binary
     let asan_exe = std::env::var("NQV_ASAN_EXE").ok().filter(|p| std::path::Path::new(p).exists());
